@@ -26,6 +26,15 @@ func MakeUserFriendlyError(err error, duration time.Duration, errorContext strin
 		return nil
 	}
 
+	// A timeout while still connecting is a connection failure like "refused" or "unreachable", not the
+	// request's own server timeout (net's dial timeout also satisfies errors.Is(context.DeadlineExceeded)).
+	// Keep the cause so the retry logic recognises it and fails over to another endpoint.
+	var dialErr *net.OpError
+	if errors.As(err, &dialErr) && dialErr.Op == "dial" && dialErr.Timeout() {
+		return fmt.Errorf("connection timed out after %.1fs - cannot reach LLM backend at %s (check backend is running): %w",
+			duration.Seconds(), dialErr.Addr, dialErr)
+	}
+
 	switch {
 	case errors.Is(err, context.Canceled):
 		// Common client timeout pattern (curl default, browser timeouts, etc.)
